@@ -431,6 +431,101 @@ def k8(F, R):
     R.floor("C17-K8", 40)
 
 
+# fields of CpuMath that a kernel may write, confirmed by reading: one line of reason each
+BACKEND_SCRATCH = {
+    "lowrank_scratch": "scratch column of the low-rank application: resized and fully overwritten (beta = Replace matmul) before it is read in the same call",
+    "logp_func": "the user's density object; what it remembers between calls is the user's business",
+}
+
+
+def stateless_backend(F, R, rid="C17-K9"):
+    """No value travels from one kernel call to the next through the backend object (shared with C02)."""
+    from . import rel as Rl
+    from .facts import vt_walk
+    R.rule(rid, "the CPU backend is stateless between kernel calls: a method of `impl Math for CpuMath` writes a field of CpuMath only if it is a listed scratch "
+                "buffer (%s) or a memo whose key is the unmodified input: the stored tuple holds parameters `p` themselves as keys, every other component is a "
+                "function of those parameters only, and the store is guarded by `p != self.<memo>.<key>`" % ", ".join(sorted(BACKEND_SCRATCH)))
+    adt = "cpu_math::CpuMath"
+    methods = [b for b in F.bodies.values() if b.kind != "closure" and b.parent.get("trait") and path_ends(b.parent["trait"], "math::Math")
+               and path_ends(b.parent.get("self_adt") or "", adt)]
+    if len(methods) < 30:
+        R.missing(rid, "methods of impl Math for CpuMath (found %d)" % len(methods))
+    n_written = 0
+    for b in sorted(methods, key=lambda x: x.path):
+        bodies = [b] + K.all_closures_of(F, b.path)
+        writes = {}
+        for bx in bodies:
+            for bi, blk in enumerate(bx.blocks):
+                if blk["cleanup"]:
+                    continue
+                for st in blk["stmts"]:
+                    if st["k"] != "assign":
+                        continue
+                    places = [("store", st["pl"])]
+                    if st["rv"]["k"] in ("ref", "rawptr") and st["rv"].get("bk") in ("mut", "Mut"):
+                        places.append(("borrow", st["rv"]["pl"]))
+                    for how, pl in places:
+                        fs = [e["n"] for e in pl["p"] if isinstance(e, dict) and "f" in e and path_ends(e.get("of") or "", adt)]
+                        if how == "store" and not fs:
+                            continue
+                        if fs:
+                            writes.setdefault(fs[0], []).append((bx, bi, st, how, pl))
+        for f, ws in sorted(writes.items()):
+            key = "%s:%s" % (b.path, f)
+            site = "%s @%s" % (b.path, loc(ws[0][2]["span"]))
+            if f in BACKEND_SCRATCH:
+                n_written += 1
+                R.ok(rid, key, site, "writes scratch field %s" % f)
+                continue
+            # memo?
+            why = None
+            for (bx, bi, st, how, pl) in ws:
+                if how != "store" or bx is not b:
+                    why = "field %s is %s" % (f, "mutably borrowed" if how == "borrow" else "written from a closure")
+                    break
+                last = [e for e in pl["p"] if isinstance(e, dict) and "f" in e]
+                if not (last and last[-1].get("n") == f and st["rv"]["k"] == "agg" and st["rv"].get("ak") == "tuple"):
+                    why = "field %s is not stored as one (key.., value..) tuple" % f
+                    break
+                comps = [b.value(o) for o in st["rv"]["ops"]]
+                keys = {i: c for i, c in enumerate(comps) if c[0] == "arg"}
+                key_args = {c[1] for c in keys.values()}
+                if not keys:
+                    why = "memo %s has no key that is an unmodified parameter (stored: %s)" % (f, ", ".join(vt_str(c)[:30] for c in comps))
+                    break
+                for i, c in enumerate(comps):
+                    if i in keys:
+                        continue
+                    leaves = [x for x in vt_walk(c) if x[0] in ("arg", "local", "field", "upvar")]
+                    if any(not (x[0] == "arg" and x[1] in key_args) for x in leaves):
+                        why = "memo value %s does not depend on the key parameters only" % vt_str(c)[:60]
+                        break
+                if why:
+                    break
+                rels = Rl.edge_relations(b, bi)
+                for i, c in keys.items():
+                    guarded = False
+                    for (o, l, r, _s) in rels:
+                        if o != "Ne" or r is None:
+                            continue
+                        for (x, y) in ((l, r), (r, l)):
+                            if x[0] == "arg" and x[1] == c[1] and y[0] == "field" and str(y[2]) == str(i) and y[1][0] == "field" and y[1][2] == f:
+                                guarded = True
+                    if not guarded:
+                        why = "memo %s is refreshed under a condition other than `%s != self.%s.%d`" % (f, c[2], f, i)
+                        break
+                if why:
+                    break
+            n_written += 1
+            if why:
+                R.bad(rid, key, site, "kernel %s keeps state between calls: %s" % (b.fn_name, why))
+            else:
+                R.ok(rid, key, site, "identity-keyed memo %s" % f)
+    R.ok(rid, "methods", "impl Math for CpuMath", "%d methods scanned, %d (method, field) writes" % (len(methods), n_written))
+    R.floor(rid, 2)
+
+
+
 def run(F, R, config=None):
     R.rule("C17-K1", "each slice operand of a kernel is split exactly once by S::as_(mut_)simd_f64s and its head exactly once by pulp::as_arrays(_mut)::<4>")
     R.rule("C17-K2", "exactly three element loops (unrolled body, SIMD tail, scalar tail); each zips the corresponding piece of every operand exactly once")
@@ -445,6 +540,7 @@ def run(F, R, config=None):
         check_kernel(F, R, b)
     k7(F, R)
     k8(F, R)
+    stateless_backend(F, R)
     R.floor("C17-K1", 25)
     R.floor("C17-K2", 40)
     R.floor("C17-K3", 40)
